@@ -24,7 +24,7 @@ def V(x): return ["var", x]
 def call(f, *a): return ["call", V(f) if isinstance(f, str) else f, list(a)]
 def inv(o, m, *a): return ["invoke", o, m, list(a)]
 
-PLACEMENTS = ["module", "fn0", "fn1", "fn3", "method1", "callback"]
+PLACEMENTS = ["module", "fn0", "fn1", "fn3", "method1", "callback", "closure1"]
 PREFIXES = ["none", "ternary", "send", "andor", "loopbreak"]
 LOOPS = ["none", "while", "for"]
 NESTS = ["single", "inner", "incatch", "exit_after_inner", "exit_in_inner_catch"]
@@ -67,7 +67,7 @@ def scenario(pl, nlocals, prefix, loop, nest, rdepth, origin, filt, exitp, late)
                                                                              ["if", ["bin", "==", V("k"), N(4)], [origin_stmt("vmbin")], None],
                                                                              origin_stmt("vmneg")], None],
                                             ["return", call("thrower", ["bin", "-", V("d"), N(1)], V("k"))]]]]
-    params = {"module": [], "fn0": [], "fn1": ["p0"], "fn3": ["p0", "p1", "p2"], "method1": ["p0"], "callback": ["p0"]}[pl]
+    params = {"module": [], "fn0": [], "fn1": ["p0"], "fn3": ["p0", "p1", "p2"], "method1": ["p0"], "callback": ["p0"], "closure1": ["p0"]}[pl]
     body = []
     for k in range(nlocals):
         body.append(["let", "l%d" % k, N(10 + k)])
@@ -131,7 +131,12 @@ def scenario(pl, nlocals, prefix, loop, nest, rdepth, origin, filt, exitp, late)
     if pl == "module":
         return header + [["try", body, "eo", None, [err_print("outer", "eo")]], ["print", [S("end")]]]
     body.append(["return", S("end")])
-    if pl in ("fn0", "fn1", "fn3"):
+    if pl == "closure1":
+        # the try sits in a closure: the parameter, the locals and the result variable of the enclosing function are captured variables there
+        nd = nlocals + 1
+        d = [["fn", "f", params, body[:nd] + [["let", "inner", ["lambda", [], body[nd:], False]], ["return", call("inner")]]]]
+        c = call("f", *args)
+    elif pl in ("fn0", "fn1", "fn3"):
         d = [["fn", "f", params, body]]
         c = call("f", *args)
     elif pl == "method1":
@@ -229,7 +234,7 @@ class C04(Check):
         else:
             space = itertools.chain(
                 itertools.product(PLACEMENTS, (0, 2), PREFIXES, LOOPS, ["single"], [None, 0, 2], ["error", "vm", "vmbin"], [None, "OtherErr"], EXITS, (False, True)),
-                itertools.product(["fn1", "method1", "callback"], (2,), ["none", "send"], LOOPS, ["inner", "incatch", "exit_after_inner", "exit_in_inner_catch"], RAISES, ORIGINS, FILTERS, EXITS, (True,)))
+                itertools.product(["fn1", "method1", "callback", "closure1"], (2,), ["none", "send"], LOOPS, ["inner", "incatch", "exit_after_inner", "exit_in_inner_catch"], RAISES, ORIGINS, FILTERS, EXITS, (True,)))
         from vlib import spaces
         for sp in spaces.opcode_prefix_specs(True):
             yield ("opc", sp)
